@@ -16,7 +16,7 @@ import warnings
 from .. import real
 
 LEVEL = "exploration"
-TECHNIQUE = "runtime monitoring: generated programs of nested/recursive decorated calls, context blocks, manual checks and exits of every exception class, executed against the real code with print_bindings() logged at every program point and compared with a stack-of-dicts reference interpreter; sibling programs generated for and executed under python -O / -OO in child processes; scopes and decorated calls entered at every distance from the recursion limit (fresh process): whether the entry succeeds or dies with RecursionError, afterwards no scope is left open"
+TECHNIQUE = "runtime monitoring: generated programs of nested/recursive decorated calls, context blocks, manual checks and exits of every exception class, executed against the real code with print_bindings() logged at every program point and compared with a stack-of-dicts reference interpreter; sibling programs generated for and executed under python -O / -OO in child processes; scopes and decorated calls entered at every distance from the recursion limit (fresh process): whether the entry succeeds or dies with RecursionError, afterwards no scope is left open; getter / setter / deleter of a decorated property called from a scope with bindings of its own"
 LEVEL_TEXT = (
     "Held on every generated program explored (thousands per run, depth <=6, every construct x exit-kind pair required "
     "to be executed). The oracle is a trivial interpreter, so any leak, missing pop or premature pop shows at the first "
